@@ -133,6 +133,7 @@ def judge(family, case, rec):
     seeds = [None, 0, 42][: 1 + case["n_seeds"]] + [util.derive_seed("C17", case["base"], tuple(sizes), m, tuple(k), i) % (2**32)
                                                    for i in range(max(0, case["n_seeds"] - 1))]
     outs = {}
+    held = []
     for rs in seeds:
         sub = {"sizes": sizes, "m": m, "k": k, "d": d, "random_state": rs, "form": case["form"]}
         rec.case(family, sub, bool(nf >= 2 and max(sizes) >= 2), key=(tuple(sizes), m, tuple(k), d, rs, case["form"]))
@@ -201,6 +202,7 @@ def judge(family, case, rec):
                 remaining -= ln
         if ok:
             outs[rs] = folds
+            held.append((rs, folds, [[np.array(a, copy=True) for a in f] for f in folds]))
         # determinism
         try:
             again = U.split_data(_data(sizes, d), ratios, **kw)
@@ -210,6 +212,28 @@ def judge(family, case, rec):
                 rec.violation("C17:not-deterministic", family, sub, "two calls with random_state=%r give different folds" % (rs,))
         except Exception as e:
             rec.exception_violation("C17:second-call-exception", family, sub, "the second identical call raised", e)
+    # folds returned earlier belong to the caller: later calls (other seeds, same shapes) must not change them
+    for (rs, folds, copies) in held:
+        rec.count("earlier-folds-rechecked")
+        same = all(np.array_equal(np.asarray(a), b) for f, g in zip(folds, copies) for a, b in zip(f, g))
+        if not same:
+            rec.violation("C17:earlier-folds-changed-by-later-call", family, case,
+                          "the folds returned for random_state=%r changed after later split_data calls" % (rs,))
+            break
+    if held:
+        rs, folds, copies = held[0]
+        for f in folds:
+            for a in f:
+                if isinstance(a, np.ndarray) and a.size and a.flags.writeable:
+                    a[...] = -1.0
+        try:
+            again = U.split_data(_data(sizes, d), ratios, **({} if rs is None else {"random_state": rs}))
+            rec.count("repeat-after-caller-overwrote-folds")
+            if not all(np.array_equal(np.asarray(a), b) for f, g in zip(again, copies) for a, b in zip(f, g)):
+                rec.violation("C17:result-depends-on-overwritten-earlier-result", family, case,
+                              "after the caller overwrote the folds of an earlier call, the same seeded call returns different folds")
+        except Exception as e:
+            rec.exception_violation("C17:repeat-exception", family, case, "repeated call raised", e)
     # shuffling: different seeds give different assignments; folds are not slices of the input order
     big = [e for e, n in enumerate(sizes) if n >= 20]
     if big and len(outs) >= 2:
